@@ -215,11 +215,19 @@ def _bandwidth(db, chk, m, TR):
     where = m.loc(fn)
     runs = _explore(db, ref, TR)
     chk.analysed_add("functions", ref)
-    if len(runs) != 1:
-        chk.ob(rule, "one path returning the series frame", None, where, found=len(runs))
+    if not runs or len(runs) > 4:
+        chk.ob(rule, "at most four paths returning the series frame", None, where, found=len(runs))
         return
-    r = runs[0]
+    for r in runs:          # every path that returns a series must be the template
+        _bandwidth_one(db, chk, m, TR, rule, where, r)
+    chk.floor(rule, 5)
+
+
+def _bandwidth_one(db, chk, m, TR, rule, where, r):
     R = r.ret
+    if not hasattr(R, "col"):
+        chk.ob(rule, "the path returns the series frame", None, where, found=type(R).__name__)
+        return
     ev = [e for e in r.events if e["func"].endswith("_get_memory_bw_time_series_for_rank")]
     bw = leaves(R.col("memory_bw_gbps"))
     cs = [x for x in bw if x[0] == "win" and x[1] == "cumsum"]
@@ -243,6 +251,12 @@ def _bandwidth(db, chk, m, TR):
            why="with the raw dur a zero-length copy contributes +bw and -bw at one instant and never shows")
     gi = [e for e in ev if e["kind"] == "groupby-iter"]
     chk.ob(rule, "cumulative sum per copy type (name)", len(gi) == 1 and gi[0]["keys"] == ["name"], where, found=[e["keys"] for e in gi], accepted=["name"])
+    if len(gi) == 1 and len(gi[0].get("key_terms", ())) == 1:
+        kl = leaves(gi[0]["key_terms"][0])
+        raw = [x for x in kl if x == T.col(TR, "name")]
+        chk.ob(rule, "the group key is the COPY TYPE (decoded and classified name), not the raw symbol id", (not raw) if kl and not T.has_opaque(gi[0]["key_terms"][0]) else None, where,
+               found=[T.show(x)[:100] for x in kl][:2], accepted="get_memory_kernel_type(sym_table[name])",
+               why="grouped by symbol id, overlapping copies of one type with different detailed names are not added up; translating the ids afterwards only relabels the rows")
     # rows: device & MEMORY kernels; name = memory kernel type of the decoded name
     cparts = [p for e in ev if e["kind"] == "concat" for k, p in e["parts"] if isinstance(p, tuple) and len(p) == 3 and p[0] == TR]
     kt = KT.kernel_type_term(db, ("getitem", T.P("SYMTABLE"), T.col(TR, "name")))
@@ -259,7 +273,6 @@ def _bandwidth(db, chk, m, TR):
            found=[T.show(x)[:120] for x in nm][:2], accepted="get_memory_kernel_type(sym_table[name])", nontrivial=False)
     after = [e for e in ev if e["kind"] in ("filter", "drop-rows", "drop_duplicates", "row-subset", "dropna") and cs and e["line"] > max(x["line"] for x in ev if x["kind"] == "sort")]
     chk.ob(rule, "no row removed after the sweep", not after, where, found=[(e["kind"], e["line"]) for e in after], accepted="none")
-    chk.floor(rule, 5)
 
 
 def _unshift(db, chk):
